@@ -165,6 +165,18 @@ CLAIMS["C12"] = dict(
     technique="exhaustive region enumeration by positive parametrisation + sign certificates over the GVN ring + interval analysis in log-magnitude",
     ref="DESIGN.md section 4 C12")
 
+CLAIMS["C03"] = dict(
+    text=("Clause chain, each link for all data/meshes: constant cell data give zero face gradients (periodic and one-sided "
+          "closures), every 1D reconstruction then returns the cell value on every face range, every registered flux is "
+          "consistent so all face fluxes are equal, equal fluxes give a zero residual on any mesh, the periodic closure feeds "
+          "identical pairs; each Euler boundary condition (1D either side, 2D any unit normal, imposed angle) returns the "
+          "interior state when its parameters are those of the state under the inflow/outflow regime (ring identities with "
+          "exponents in Q(gamma)); dirichlet returns its state; nozzle sources vanish at rest; every integrator maps a zero "
+          "residual to the identity with or without local time steps (AFF). The vanishing finite-difference step at rest is a "
+          "known finding. Not decided: 'to round-off'; insub_cbc root selection."),
+    technique="access-relation decoding + algebraic GVN (fixed-point identities) + affine abstract interpretation of integrators",
+    ref="DESIGN.md section 4 C03")
+
 NA_REASONS = {
     "C09": ("runtime invariant of trajectories (range and total variation after every step for all data); its "
             "code-shape premises are owned and decided by C02, C05, C11, C12, C18; the remaining step (flux "
